@@ -30,6 +30,9 @@ pub struct TimedCache {
     map: Arc<DashMap<Vec<u8>, CachedItem>>,
     last_clean: Arc<RwLock<Instant>>,
     can_clean: Arc<AtomicBool>,
+    /// Counts the writes (and flushes) that went through the cache. A read that missed the cache
+    /// remembers the count, and its database answer is only cached if no write happened meanwhile.
+    write_generation: Arc<tokio::sync::Mutex<u64>>,
     item_lifetime: Duration,
     memory_limit_bytes: Option<usize>,
     clean_frequency: Duration,
@@ -141,6 +144,7 @@ impl TimedCache {
             map: Arc::new(DashMap::new()),
             last_clean: Arc::new(RwLock::new(Instant::now())),
             can_clean: Arc::new(AtomicBool::new(true)),
+            write_generation: Arc::new(tokio::sync::Mutex::new(0)),
             item_lifetime: lifetime,
             memory_limit_bytes: o_memory_limit_bytes,
             clean_frequency,
@@ -189,27 +193,45 @@ impl TimedCache {
         None
     }
 
+    /// The current write generation, to be passed to [TimedCache::fill] / [TimedCache::batch_fill]
+    /// once the database has answered a read that missed the cache.
+    pub async fn write_generation(&self) -> u64 {
+        *self.write_generation.lock().await
+    }
+
+    /// Cache a record that was just read from the database, unless a write (or a flush) went
+    /// through the cache since `generation` was taken: the record may then be older than what
+    /// the cache holds (or held), and caching it would serve stale data until it expires.
+    pub async fn fill(&self, record: &DbRecord, generation: u64) {
+        let guard = self.write_generation.lock().await;
+        if *guard == generation {
+            self.insert_records(std::slice::from_ref(record)).await;
+        }
+    }
+
+    /// Batch version of [TimedCache::fill].
+    pub async fn batch_fill(&self, records: &[DbRecord], generation: u64) {
+        let guard = self.write_generation.lock().await;
+        if *guard == generation {
+            self.insert_records(records).await;
+        }
+    }
+
     /// Put an item into the cache.
     pub async fn put(&self, record: &DbRecord) {
-        self.clean().await;
-
-        let key = record.get_full_binary_id();
-
-        // special case for AZKS
-        if let DbRecord::Azks(azks_ref) = &record {
-            let mut guard = self.azks.write().await;
-            *guard = Some(DbRecord::Azks(azks_ref.clone()));
-        } else {
-            let item = CachedItem {
-                expiration: Instant::now() + self.item_lifetime,
-                data: record.clone(),
-            };
-            self.map.insert(key, item);
-        }
+        let mut guard = self.write_generation.lock().await;
+        *guard = guard.wrapping_add(1);
+        self.insert_records(std::slice::from_ref(record)).await;
     }
 
     /// Put a batch of items into the cache, utilizing a single write lock.
     pub async fn batch_put(&self, records: &[DbRecord]) {
+        let mut guard = self.write_generation.lock().await;
+        *guard = guard.wrapping_add(1);
+        self.insert_records(records).await;
+    }
+
+    async fn insert_records(&self, records: &[DbRecord]) {
         self.clean().await;
 
         for record in records.iter() {
@@ -229,6 +251,8 @@ impl TimedCache {
 
     /// Flush the cache.
     pub async fn flush(&self) {
+        let mut guard = self.write_generation.lock().await;
+        *guard = guard.wrapping_add(1);
         self.map.clear();
         *(self.azks.write().await) = None;
     }
